@@ -94,6 +94,8 @@ type Sched struct {
 	rtBlocked  []bool
 	abandoned  []bool
 	goid       []int64
+	gptr       []uintptr // g pointer of every task goroutine (identity)
+	Foreign    int       // simulation points reached by goroutines that are not tasks (ignored)
 	spin       []int
 	seenStep   []int
 	nRT        int
@@ -179,6 +181,7 @@ func New(n int, rng *kit.Rng, replay []int, maxSteps int) *Sched {
 	s.rtBlocked = make([]bool, n)
 	s.abandoned = make([]bool, n)
 	s.goid = make([]int64, n)
+	s.gptr = make([]uintptr, n)
 	s.spin = make([]int, n)
 	s.seenStep = make([]int, n)
 	s.StallSpins = 20000
@@ -422,10 +425,9 @@ func curGoid() int64 {
 // then waits for its turn like any other task. Returns the caller's id.
 //
 //go:norace
-func (s *Sched) resync() int {
-	g := curGoid()
+func (s *Sched) resync(g uintptr) int {
 	for t := 0; t < s.n; t++ {
-		if s.goid[t] == g {
+		if s.gptr[t] == g {
 			if s.rtBlocked[t] {
 				s.rtBlocked[t] = false
 				s.nRT--
@@ -441,7 +443,7 @@ func (s *Sched) resync() int {
 			return t
 		}
 	}
-	return s.current
+	return none
 }
 
 //go:norace
@@ -467,10 +469,20 @@ func (s *Sched) Yield(site int, mu *sync.Mutex) {
 		return
 	}
 	me := s.current
-	if s.nRT > 0 {
-		me = s.resync()
+	// Who is calling? Normally the current task. It may also be a task the
+	// runtime has just released (it re-joins here), or a goroutine the code
+	// under test spawned itself: those are not simulated and run freely.
+	if g := getg(); me < 0 || s.gptr[me] != g {
+		me = none
+		if s.nRT > 0 {
+			me = s.resync(g)
+		}
+		if me == none {
+			s.Foreign++
+			return
+		}
 	}
-	if me < 0 || s.abort {
+	if s.abort {
 		return
 	}
 	if site >= 0 && site < MaxSites && s.SparseSites[site] {
@@ -611,7 +623,7 @@ func (s *Sched) Run(bodies []func()) {
 }
 
 //go:norace
-func (s *Sched) setGoid(id int) { s.goid[id] = curGoid() }
+func (s *Sched) setGoid(id int) { s.goid[id] = curGoid(); s.gptr[id] = getg() }
 
 // leave releases the join for a task, unless the join was already released
 // on its behalf (abandoned while blocked inside the runtime).
